@@ -269,6 +269,17 @@ def check(ctx):
                 arg_ok = arg_ok and bool(ds) and all(bound(d) is not None and unparse(bound(d)) == field for d in ds)
                 guard_ok = guard_ok and a0 is not None and (f"{unparse(a0)} is None", False) in nfacts(fcfg, o)
         ctx.ob("R5", f"{PP}:PipeChannel.{name}", "os.close receives the value read from the field and only if it is not None", arg_ok and guard_ok, key=f"{name}|close-arg", where=loc(fn))
+        # take-ownership must be one critical section: the value that will be closed is read inside the very `with lock:`
+        # block that clears the field - two closers that both read before either clears both call os.close on the number
+        atomic = bool(osc)
+        for o in osc:
+            for c in calls_in(o.ast):
+                if call_name(c) != "os.close" or not c.args or not isinstance(c.args[0], ast.Name):
+                    continue
+                for d in fdefs.get(c.args[0].id, []):
+                    ws = [a_ for a_ in ancestors(d.stmt) if isinstance(a_, ast.With) and "_lock" in unparse(a_.items[0].context_expr)]
+                    atomic = atomic and bool(ws) and any(any(lexically_inside(n.ast, w_) for n in clear) for w_ in ws)
+        ctx.ob("R5", f"{PP}:PipeChannel.{name}", f"the value handed to os.close is read from {field} inside the same locked block that clears it (read-and-clear is atomic)", atomic, key=f"{name}|read-outside-lock", where=loc(fn))
     for name in ("open_writer", "open_reader"):
         fn = pp.func(f"PipeChannel.{name}")
         opens = [c for c in calls_in(fn) if call_name(c) == "open"]
@@ -360,4 +371,5 @@ META = {
     "fd/child counts are run-time state and not decided.",
     "note": "Decides the listed structural clauses, not the behaviour. Exception edges are modelled only where the "
     "function's own try/with/finally makes them observable (DESIGN Appendix A).",
+    "more": 'Also decided: the descriptor handed to os.close is read inside the same locked block that clears the field (no check-then-act between concurrent closers).',
 }
